@@ -48,7 +48,7 @@ func gz(b []byte) []byte {
 
 // handBlob writes a blob by the documented rules: one gzip member per chunk (or several chunks per
 // member with innerOffset), TOC JSON in a tar in the last member, footer with the TOC offset.
-func handBlob(d func(int) int, seed uint64) ([]byte, []string) {
+func handBlob(d func(int) int, seed uint64, invalid int) ([]byte, []string) {
 	var notes []string
 	var payload bytes.Buffer
 	var ents []*estargz.TOCEntry
@@ -178,6 +178,14 @@ func handBlob(d func(int) int, seed uint64) ([]byte, []string) {
 	}
 	addFile("empty", nil, d(2) == 0)
 	addFile("big", data(4, 3*cs+d(cs)), true)
+	switch invalid { // one entry that makes the TOC invalid: both stores must reject the blob (or both accept it)
+	case 1:
+		ents = append(ents, &estargz.TOCEntry{Name: "bad-hardlink", Type: "hardlink", LinkName: "no/such/target"})
+		notes = append(notes, "INVALID:hardlink-to-missing-target")
+	case 2:
+		ents = append(ents, &estargz.TOCEntry{Name: "bad-size", Type: "reg", Size: -5, Mode: 0644, ModTime3339: mt, NumLink: 1})
+		notes = append(notes, "INVALID:negative-size")
+	}
 	j, _ := json.Marshal(&estargz.JTOC{Version: 1, Entries: ents})
 	if d(2) == 0 {
 		j = append(j, []byte(" \n\t\n")...)
@@ -362,8 +370,16 @@ func run(t *testing.T, tape *simrt.Tape) *hx.Outcome {
 	var layers []layerIn
 	for i := 0; i < nLayers; i++ {
 		if d(2) == 0 {
-			b, notes := handBlob(d, tape.Seed+uint64(i))
-			layers = append(layers, layerIn{blob: b, notes: notes, kind: "hand-written"})
+			inv := 0
+			if tape.Draw("gen.invalid", 5) == 0 { // own stream: older tapes replay unchanged
+				inv = 1 + tape.Draw("gen.invalid", 2)
+			}
+			b, notes := handBlob(d, tape.Seed+uint64(i), inv)
+			kind := "hand-written"
+			if inv != 0 {
+				kind = "invalid"
+			}
+			layers = append(layers, layerIn{blob: b, notes: notes, kind: kind})
 			continue
 		}
 		cs := []int{8, 17, 64, 50, 100}[d(5)]
@@ -536,7 +552,7 @@ func run(t *testing.T, tape *simrt.Tape) *hx.Outcome {
 func TestC05(t *testing.T) {
 	hx.Main(t, hx.Prop{
 		ID:   "C05",
-		Rule: "each run opens 1-3 layers concurrently (one task per layer) in the memory store and in one shared bolt database: blobs built by the real builder (chunk 8/17/64, min-chunk-size streams, gzip/zstd:chunked) or hand-written spec-conforming blobs the builder never emits (implicit parents, repeated directory entries, hard links to hard links, entries without per-file digest, ./ and ../ names, empty-valued xattrs, a directory listed after its child, trailing whitespace after the TOC JSON, several chunks per stream with innerOffset); both readers are walked completely through metadata.Reader (RootID, TOCDigest, GetAttr, ForeachChild, GetChild, GetOffset, OpenFile, ChunkEntryForOffset at 0/1/mid/size-1/size/size+5, ReadAt of every probed chunk) into a canonical id-independent description and compared line by line; then the layers are closed one by one in a drawn order and the survivors re-described; blob reads fail with probability 1/25 in a third of the runs. non-trivial = at least one layer fully compared; distinct = schedule hash x layer kinds/features",
+		Rule: "each run opens 1-3 layers concurrently (one task per layer) in the memory store and in one shared bolt database: blobs built by the real builder (chunk 8/17/64, min-chunk-size streams, gzip/zstd:chunked) or hand-written spec-conforming blobs the builder never emits (implicit parents, repeated directory entries, hard links to hard links, entries without per-file digest, ./ and ../ names, empty-valued xattrs, a directory listed after its child, trailing whitespace after the TOC JSON, several chunks per stream with innerOffset); both readers are walked completely through metadata.Reader (RootID, TOCDigest, GetAttr, ForeachChild, GetChild, GetOffset, OpenFile, ChunkEntryForOffset at 0/1/mid/size-1/size/size+5, ReadAt of every probed chunk) into a canonical id-independent description and compared line by line; then the layers are closed one by one in a drawn order and the survivors re-described; blob reads fail with probability 1/25 in a third of the runs. non-trivial = at least one layer fully compared; distinct = schedule hash x layer kinds/features In a third of the layers both readers are cloned right after opening (before any call that waits for the db store's background parsing) and the clones are described at once: they must agree like the originals. A fifth of the hand-written blobs carries one entry that makes the TOC invalid (hardlink to a missing target, negative size): both stores must reject it, or both accept it.",
 		Run:  run,
 		PanicIsViolation: true,
 		HangIsViolation:  true,
